@@ -226,6 +226,7 @@ fn build_sorter<CC: grenad::ChunkCreator>(cfg: &SCfg, mf: Mf, cc: CC) -> Sorter<
     b.allow_realloc(cfg.realloc);
     b.max_nb_chunks(cfg.maxchunks);
     b.sort_algorithm(if cfg.stable { SortAlgorithm::Stable } else { SortAlgorithm::Unstable });
+    #[cfg(feature = "allcodecs")]
     b.sort_in_parallel(cfg.par);
     b.chunk_compression_type(codec_of(cfg.chunk.codec));
     b.chunk_compression_level(cfg.chunk.level);
@@ -473,10 +474,11 @@ impl Interp {
         let r = catch_unwind(AssertUnwindSafe(|| Reader::new(src)));
         let f1 = match r {
             Ok(Ok(rd)) => format!(
-                "ok v={} codec={} count={}",
+                "ok v={} codec={} count={} empty={}",
                 rd.file_version() as u32 + 1,
                 codec_id(rd.compression_type()),
-                rd.len()
+                rd.len(),
+                rd.is_empty()
             ),
             Ok(Err(e)) => fmt_err(&e),
             Err(p) => format!("panic {}", panic_name(p)),
@@ -591,6 +593,70 @@ impl Interp {
                 let st = stats.borrow();
                 let low = if st.bytes == 0 { 0 } else { b.len() as u64 - st.low };
                 self.emit(line, f1, format!("seeks={} bytes={} low={}", st.seeks, st.bytes, low));
+            }
+            "openio" => {
+                // open through a source that answers every read from an explicit schedule
+                let b = unhex(toks[1]).unwrap_or_default();
+                let sched: std::collections::VecDeque<vio::WResp> = if toks[2] == "-" {
+                    Default::default()
+                } else {
+                    toks[2]
+                        .split(',')
+                        .filter_map(|t| {
+                            let (c, n) = t.split_at(1);
+                            match c {
+                                "s" => n.parse().ok().map(vio::WResp::Accept),
+                                "i" => Some(vio::WResp::Interrupted),
+                                "f" => n.parse().ok().map(vio::WResp::Fail),
+                                _ => None,
+                            }
+                        })
+                        .collect()
+                };
+                let mut src = Src::new(Arc::new(b.clone()));
+                let q = Rc::new(RefCell::new(sched));
+                src.rsched = Some(q.clone());
+                let r = catch_unwind(AssertUnwindSafe(|| Reader::new(src)));
+                let f1 = match r {
+                    Ok(Ok(rd)) => {
+                        let t = decode::trailer(&b);
+                        format!(
+                            "ok v={} root={} codec={} count={} levels={}",
+                            rd.file_version() as u32 + 1,
+                            t.as_ref().map(|t| t.root).unwrap_or(u64::MAX),
+                            codec_id(rd.compression_type()),
+                            rd.len(),
+                            t.as_ref().map(|t| t.levels as i64).unwrap_or(-1)
+                        )
+                    }
+                    Ok(Err(e)) => fmt_err(&e),
+                    Err(p) => format!("panic {}", panic_name(p)),
+                };
+                let rest = q.borrow().len();
+                self.emit(line, f1, format!("rest={}", rest));
+            }
+            "openfault" => {
+                // the n-th seek of the open fails: the open must return that I/O error (impl-only)
+                let b = unhex(toks[1]).unwrap_or_default();
+                let n: u64 = toks[2].parse().unwrap_or(1);
+                let tag: u64 = toks[3].parse().unwrap_or(0);
+                let src = Src::new(Arc::new(b));
+                *src.fault.borrow_mut() = Some(SrcFault::Seek(n, tag));
+                let stats = src.stats.clone();
+                let r = catch_unwind(AssertUnwindSafe(|| Reader::new(src).map(|_| ())));
+                let reached = stats.borrow().seeks >= n;
+                let got = match r {
+                    Ok(Ok(())) => "ok".to_string(),
+                    Ok(Err(e)) => fmt_err(&e),
+                    Err(p) => format!("panic {}", panic_name(p)),
+                };
+                let good = if reached { got == format!("err io {}", tag) } else { !got.starts_with("panic") };
+                if good {
+                    self.emit(&format!("!{}", line), "fault-checked".into(), "-".into());
+                } else {
+                    self.oracle_failures += 1;
+                    self.emit(&format!("!{}", line), format!("ORACLE-FAIL seek_fault_reached={}_got={}", reached, got.replace(' ', "_")), "-".into());
+                }
             }
             "cfg" => {
                 self.wcfg = WCfg::parse(&toks[1..]);
